@@ -243,6 +243,27 @@ fn cmd_race(a: &Args) -> i32 {
         }
         return 0;
     }
+    if a.str("shape", "a") == "reuse" {
+        let rounds = a.usize("rounds", 8);
+        let fill = shard % 2 == 1;
+        let r = match (val.as_str(), fill) {
+            ("tp", false) => wl_race::node_reuse::<Tp<1>, DefaultStrategy>(rounds),
+            ("tp", true) => wl_race::node_reuse::<Tp<1>, FillFastSlots>(rounds),
+            (_, false) => wl_race::node_reuse::<Option<std::sync::Arc<Payload>>, DefaultStrategy>(rounds),
+            (_, true) => wl_race::node_reuse::<Option<std::sync::Arc<Payload>>, FillFastSlots>(rounds),
+        };
+        let _ = r;
+        runner::with(|x| {
+            x.execs += 1;
+            x.ops += 2 * rounds as u64;
+        });
+        runner::collect_violations(&json!({"workload": "race/reuse", "val": val, "shard": shard}));
+        let live = if val == "tp" { tp::LIVE_OBJS.load(std::sync::atomic::Ordering::Relaxed) } else { tp::ARC_LIVE.load(std::sync::atomic::Ordering::Relaxed) };
+        if live != 0 && runner::with(|x| x.violations.is_empty()) {
+            runner::violation("C02", "leak", format!("{} value(s) alive after everything was dropped", live), &json!({"workload": "race/reuse"}));
+        }
+        return 0;
+    }
     let shapes: Vec<String> = a.str("shape", "a").split(',').map(|s| s.to_string()).collect();
     let ops = a.usize("ops", if cfg!(miri) { 10 } else { 5_000 });
     runner::start_watchdog(a.u64("stall_s", 600));
